@@ -129,4 +129,25 @@ mutual
     | _, _ => (st, acc)
 end
 
+
+/-! ## The theorems' hypothesis, decided on real trees -/
+
+def tbJ (t : Tree) : Nat := t.data.padding.bytes + t.data.size.bytes
+
+mutual
+  /-- Decidable version of `WFb` (Bytes.lean): every inner node's padding is its first child's
+  padding and its total is the sum of its children's totals (byte dimension). -/
+  def wfbCheck : Tree → Bool
+    | .mk _ [] => true
+    | .mk d (k :: ks) =>
+      wfbCheck k && wfbCheckL ks && d.padding.bytes == k.data.padding.bytes &&
+        d.padding.bytes + d.size.bytes == tbJ k + sumTJ ks
+  def wfbCheckL : List Tree → Bool
+    | [] => true
+    | t :: ts => wfbCheck t && wfbCheckL ts
+  def sumTJ : List Tree → Nat
+    | [] => 0
+    | t :: ts => tbJ t + sumTJ ts
+end
+
 end TsVerif.C10
